@@ -648,6 +648,11 @@ impl Rig {
                     "headers": headers_json(&headers), "framing": framing, "bodyLen": body.len(), "bodySha": sha256_hex(&body)}));
                 let mut g = c.lock().unwrap();
                 let mut wres = g.stream.write_all(&head);
+                // a slow upload: the head is on the wire, the body follows later (wall-clock seconds pass in between)
+                if let Some(ms) = st["body_delay_ms"].as_u64() {
+                    let _ = g.stream.flush();
+                    std::thread::sleep(Duration::from_millis(ms));
+                }
                 if wres.is_ok() {
                     wres = match framing {
                         "chunked" => write_chunked(&mut g.stream, &body, &usizes_of(st.get("chunks")), st["gap_ms"].as_u64().unwrap_or(0)),
